@@ -132,6 +132,7 @@ def clustering_coef_bd(A):
     K[np.where(cyc3 == 0)] = np.inf  # if no 3-cycles exist, make C=0
     # number of all possible 3 cycles
     CYC3 = K * (K - 1) - 2 * np.diag(np.dot(A, A))
+    CYC3[np.where(CYC3 == 0)] = np.inf  # fewer than two neighbours (possible only through a self-connection): C=0 as in clustering_coef_bu
     C = cyc3 / CYC3
     return C
 
@@ -202,6 +203,7 @@ def clustering_coef_wd(W):
     K[np.where(cyc3 == 0)] = np.inf  # if no 3-cycles exist, make C=0
     # number of all possible 3 cycles
     CYC3 = K * (K - 1) - 2 * np.diag(np.dot(A, A))
+    CYC3[np.where(CYC3 == 0)] = np.inf  # fewer than two neighbours (possible only through a self-connection): C=0 as in clustering_coef_bu
     C = cyc3 / CYC3  # clustering coefficient
     return C
 
@@ -228,6 +230,7 @@ def clustering_coef_wu(W):
     ws = cuberoot(W)
     cyc3 = np.diag(np.dot(ws, np.dot(ws, ws)))
     K[np.where(cyc3 == 0)] = np.inf  # if no 3-cycles exist, set C=0
+    K[np.where(K < 2)] = np.inf  # fewer than two neighbours (possible only through a self-connection): C=0 as in clustering_coef_bu
     C = cyc3 / (K * (K - 1))
     return C
 
